@@ -141,7 +141,7 @@ Proof. exact stanza_reply_spec. Qed.
 Print Assumptions reply_addresses_sender.
 
 Theorem reply_of_non_element_is_null :
-  stanza_reply Unk = None /\ forall s, stanza_reply (Text s) = None.
+  (forall cs, stanza_reply (Unk cs) = None) /\ forall s, stanza_reply (Text s) = None.
 Proof. exact stanza_reply_not_tag. Qed.
 Print Assumptions reply_of_non_element_is_null.
 
@@ -181,3 +181,27 @@ Theorem error_new_rfc6120_structure :
       In stream_error_default rfc_stream_conditions.
 Proof. exact error_new_spec. Qed.
 Print Assumptions error_new_rfc6120_structure.
+
+(* the handle returned by xmpp_stanza_copy denotes a tree equal to the original that is stored entirely in nodes
+   which did not exist before the call; the older nodes are untouched by the call, and whatever is done to them
+   afterwards (any heap h2 that differs from the heap after the copy only below the old size) the copy still
+   denotes the same tree: copies are deep and independent *)
+Theorem copy_lives_in_fresh_nodes :
+  forall st d s st' id0 t,
+    slot st s = Some id0 -> tree_of (fuel_of (p_heap st)) (p_heap st) id0 = Some t -> tree_wf t ->
+    run_op st (OCopy d s) = (st', OHandle false) ->
+    exists id t',
+      slot st' d = Some id /\ (length (p_heap st) <= id)%nat /\ tree_equiv t t' /\
+      firstn (length (p_heap st)) (p_heap st') = p_heap st /\
+      forall h2, length h2 = length (p_heap st') ->
+                 skipn (length (p_heap st)) h2 = skipn (length (p_heap st)) (p_heap st') ->
+                 tree_of (fuel_of h2) h2 id = Some t'.
+Proof. exact copy_is_independent. Qed.
+Print Assumptions copy_lives_in_fresh_nodes.
+
+(* ... and the setters (all of which go through upd_node) change only the node they are applied to *)
+Theorem setters_touch_one_node :
+  forall (h : heap) id f n, (id < n)%nat ->
+    length (upd_node h id f) = length h /\ skipn n (upd_node h id f) = skipn n h.
+Proof. exact upd_node_keeps_newer. Qed.
+Print Assumptions setters_touch_one_node.
